@@ -2,30 +2,30 @@ SPECIFICATION MCSpec
 CONSTANTS
   MaxW = 3
   Keys = {1, 2}
-  MaxJ = 4
-  MaxInc = 7
+  MaxJ = 3
+  MaxInc = 5
   LbBig = 1000
-  FixRetire = FALSE
+  FixRetire = TRUE
   Routing0 = "queuer"
   Workers0 = 2
-  Lim0 <- Lim1
-  Mode0 = "oldest"
+  Lim0 <- NoLim
+  Mode0 = "none"
   RlOn = FALSE
-  RlRefill = 1
-  RlInterval = 2
-  RlMax = 1
-  JobKeys <- Keys1212
-  JobTtl <- NoTtl4
-  PortJobs = {2}
-  Ends = {"ok", "panic", "killmid"}
+  RlRefill = 0
+  RlInterval = 0
+  RlMax = 0
+  JobKeys <- Keys121
+  JobTtl <- NoTtl3
+  PortJobs = {}
+  Ends = {"ok", "panic"}
   MaxKills = 1
-  MaxFaults = 2
-  Resizes <- Res12
-  MayDrain = TRUE
+  MaxFaults = 1
+  Resizes <- Res1
+  MayDrain = FALSE
   MaxT = 0
   TStep = 1
   FreeOrder = FALSE
 INVARIANTS
   OneFate PortOk LostOnePerDeath NoFactoryPanic KeyExclusive KeyFifo OneAtATime HashInPool RoundRobinCovers QueuerNoIdle ViewExact
-  QueueBound HookOrder PoolConverges DrainComplete DrainRefuses
+  NeverDrainingSlotReplaced QueueBound HookOrder PoolConverges DrainComplete DrainRefuses
 CHECK_DEADLOCK FALSE
